@@ -115,12 +115,28 @@ specfun("event_mirrors", ["info", "o"],
 # ---------------------------------------------------------------------------------------------------------------------
 # reservation of a new order (C06)
 # ---------------------------------------------------------------------------------------------------------------------
+# What the order may spend, as the statement lists it: the base amount of a sell, the estimated quote cost plus fees
+# of a buy, and any fee a sell's proceeds would not cover -- i.e. the negative part of (rounded estimate + rounded fees).
+specfun("known_order", ["o"], "typeis(o, 'MarketOrder') or typeis(o, 'LimitOrder') or typeis(o, 'StopOrder') or typeis(o, 'StopLimitOrder')")
+specfun("known_fees", ["f"], "typeis(f, 'NoFee') or typeis(f, 'Percentage')")
+specfun("est_price", ["m", "o"],
+        "ite(typeis(o, 'LimitOrder') or typeis(o, 'StopLimitOrder'), o._limit_price, ite(typeis(o, 'StopOrder'), o._stop_price, "
+        "ite(o._pair in m._ctx.prices._last_bars, m._ctx.prices._last_bars[o._pair].close, 0)))")
+specfun("bp_of", ["m", "o"], "cfg_pair_info(om_cfg(m), o._pair).base_precision")
+specfun("qp_of", ["m", "o"], "cfg_pair_info(om_cfg(m), o._pair).quote_precision")
+specfun("est_b", ["m", "o"], "q_down(o._amount if is_buy(o) else -o._amount, bp_of(m, o))")
+specfun("est_q", ["m", "o"], "q_he(o._amount * est_price(m, o) * (-1 if is_buy(o) else 1), qp_of(m, o))")
+specfun("est_fee_q", ["m", "o"],
+        "ite(typeis(m._ctx.fee_strategy, 'Percentage') and est_b(m, o) != 0 and est_q(m, o) != 0, "
+        "q_up(pct_total_fee(m._ctx.fee_strategy, est_q(m, o)), qp_of(m, o)), 0)")
+specfun("req_of", ["m", "o", "s"],
+        "ite(s == ob(o), (-est_b(m, o) if est_b(m, o) < 0 else 0), "
+        "ite(s == oq(o), (-(est_q(m, o) + est_fee_q(m, o)) if est_q(m, o) + est_fee_q(m, o) < 0 else 0), 0))")
 contract(OM + "_estimate_required_balances", props=["C06", "C07"], returns="ValueMap", modifies=[],
          requires=[("order", "order_wf(order) and wf_config(om_cfg(self), order._pair)"), ("fees", "fee_wf(self._ctx.fee_strategy)"),
                    ("prices", "prices_wf(self._ctx.prices)"),
                    ("new", "forall(lambda s=Str: not (s in order._balance_updates)) and forall(lambda s=Str: not (s in order._fees))")],
          ensures=[("fresh", "fresh(result)"),
                   ("nonneg", "forall(lambda s=Str: at(result, s) >= 0 and implies(s in result, at(result, s) > 0))"),
-                  ("symbols", "forall(lambda s=Str: implies(s in result, s == ob(order) or s == oq(order)))"),
-                  # a sell reserves (at least) the base amount; a buy nothing of the base
-                  ("sell_base", "implies(not is_buy(order), at(result, ob(order)) >= q_down(order._amount, cfg_pair_info(om_cfg(self), order._pair).base_precision))")])
+                  ("reservation", "implies(known_order(order) and known_fees(self._ctx.fee_strategy), "
+                                  "forall(lambda s=Str: at(result, s) == req_of(self, order, s)))")])
